@@ -20,7 +20,8 @@ EMBED = [(b"", b""), (b"x = ", b";"), (b"\n", b" 'c")]
 
 
 # multi-character contents that look like markup / escapes / operator spellings: a literal's content is data, whatever it resembles
-WORDS = [b"&lt;", b"&gt;", b"&amp;", b"&quot;", b"&#43;", b"a&lt;b&gt;", b"&amp;amp;", b"+=", b"&&", b"%41", b"^", b"a", b""]
+WORDS = [b"&lt;", b"&gt;", b"&amp;", b"&quot;", b"&#43;", b"a&lt;b&gt;", b"&amp;amp;", b"+=", b"&&", b"%41", b"^", b"a", b"",
+         b"\\u0041", b"h\\u0074\\u0074p", b"C:\\users\\u0041bc", b"a\\x41", b"\\n", b"a\\\\b"]  # written escapes are data too (a literal just cannot END in a backslash)
 
 
 def contents(maxlen):
@@ -46,7 +47,7 @@ def describe(tier):
         ),
         "bounds": {"content_alphabet": [c.decode() for c in CH], "max_content_len_pairs": L2, "separators": [s.decode() for s in SEPS],
                    "spacings": len(SPACING), "embeddings": len(EMBED)},
-        "assumptions": ["literals contain no quote characters, backticks or backslashes (statement's domain)",
+        "assumptions": ["literals contain no quote characters and no backticks, and do not end in a backslash (either would change where the literal ends); backslash escapes inside a literal are data",
                         "replacement with an empty search string is outside the statement ('every occurrence of a' is undefined) and is not generated"],
         "exhaustive": True,
     }
@@ -234,6 +235,8 @@ def run_unit(unit, rec):
         n += run_cat(rec, ((first, b, c) for b in WORDS for c in WORDS), lambda k: [(b'"',) * k, (b"'",) * k], tier, scan_every=13)
         for name, fn, typ, lab in REV:
             for c in (first, first[::-1]):
+                if c.endswith(b"\\"):
+                    continue  # a trailing backslash would escape the closing quote: not a literal of the statement's domain
                 for q in (b'"', b"'"):
                     expr = name + lit(c, q) + b")"
                     data = b"x = " + expr + b";"
